@@ -3,6 +3,8 @@ import PhysisModel.Base.FsText
 import PhysisModel.Model.Patch
 import PhysisModel.Spec.ZiPatch
 import PhysisModel.Spec.ZiPatchSparse
+import PhysisModel.Model.Inflate
+import PhysisModel.Base.Mutate
 /-!
 Driver for C03.  Case grammar (one line):
 
@@ -117,6 +119,61 @@ def inflateTable (cs : List Cmd) : List (Bytes × Bytes) :=
 def tableInflate (tab : List (Bytes × Bytes)) (x : Bytes) (n : Nat) : Option Bytes :=
   (tab.find? fun e => e.2.length == n && x.take e.1.length == e.1).map (·.2)
 
+/-! ### `mut`: a damaged patch (model of the code against the code, outcome and resulting tree)
+
+The dense tree model materialises every byte, and a damaged offset / count field can ask for
+gigabytes (so can the real patcher: that is the format).  `safePatch` walks the chunks of the
+damaged patch as the model reads them and admits the case only if every offset, count and size
+that drives a write is small; anything else is skipped. -/
+
+def chunkSafe : Patch.Chunk → Bool
+  | .addData _ _ _ off del data => off.toNat ≤ 2 ^ 22 && del.toNat ≤ 2 ^ 20 && data.length ≤ 2 ^ 20
+  | .deleteData _ _ _ off num => off.toNat ≤ 2 ^ 22 && num.toNat ≤ 2 ^ 13
+  | .expandData _ _ _ off num => off.toNat ≤ 2 ^ 22 && num.toNat ≤ 2 ^ 13
+  | .fileOp _ off size _ _ => off.toNat ≤ 2 ^ 22 && size.toNat ≤ 2 ^ 22
+  | _ => true
+
+def scanSafe (inflate : Bytes → Nat → Option Bytes) : Nat → Bytes → Bool
+  | 0, _ => true
+  | fuel + 1, s =>
+    match Patch.rdChunkBody s with
+    | .ok .eof _ => true
+    | .ok c sb =>
+      if !chunkSafe c then false
+      else if sb.length < 4 then true
+      else
+        match c with
+        | .fileOp .addFile _ size _ _ =>
+          match Patch.readBlocks inflate (sb.length + 1) sb size.toNat [] with
+          | none => true
+          | some (_, s') => scanSafe inflate fuel (s'.drop 4)
+        | _ => scanSafe inflate fuel (sb.drop 4)
+    | _ => true
+
+def safePatch (inflate : Bytes → Nat → Option Bytes) (patch : Bytes) : Bool :=
+  match Patch.rdPatchHeader patch with
+  | some s => scanSafe inflate patch.length s
+  | none => true
+
+def handleMut (seed k : Nat) (api tree cmds : String) : String :=
+  match stripKey "api" api, (stripKey "tree" tree).bind parseTree, (stripKey "cmds" cmds).bind parseCmds with
+  | some api, some t, some cs =>
+    if !(api == "zipatch" || api == "game" || api == "boot") then bad else
+    if api == "boot" && !isFile t [Bytes.ofString "ffxivboot.ver"] then bad else
+    let patch := Mutate.mutate (encodePatch cs) seed.toUInt64 k (bias := 160)
+    -- the real inflater in both readings of a short stream (`Inflate.inflatesToFill`): a case whose
+    -- answer depends on the reading is not compared
+    let i1 : Bytes → Nat → Option Bytes := fun c n => Physis.Inflate.inflatesTo c n
+    let i2 : Bytes → Nat → Option Bytes := fun c n => Physis.Inflate.inflatesToFill c n
+    if !(safePatch i1 patch && safePatch i2 patch) then answer "skip" "skip" ["triv", "mut-large"] else
+    let show' := fun (r : Patch.Outcome × Tree) =>
+      (if r.1 == .ok then "ok" else "err") ++ " " ++ showTree r.2 true
+    let a1 := show' (Patch.applyAll i1 [patch] t)
+    let a2 := show' (Patch.applyAll i2 [patch] t)
+    if a1 != a2 then answer "skip" "skip" ["triv", "mut-short-stream"] else
+    answer (api ++ " " ++ toHexFast patch) a1 ["corr", "mut"]
+  | _, _, _ => bad
+
 def handleCase (api tree : String) (cmdss : List String) : String :=
   match stripKey "api" api, (stripKey "tree" tree).bind parseTree, cmdss.mapM (fun s => (stripKey "cmds" s).bind parseCmds) with
   | some api, some t, some pss =>
@@ -150,6 +207,10 @@ def handle (line : String) : String :=
   match fields line with
   | "applybig" :: api :: tree :: cmdss => if cmdss.isEmpty then bad else handleBig api tree cmdss
   | ["apply", api, tree, cmds] => handleCase api tree [cmds]
+  | ["mut", seed, k, "apply", api, tree, cmds] =>
+    match seed.toNat?, k.toNat? with
+    | some sd, some k => handleMut sd k api tree cmds
+    | _, _ => bad
   | "chain" :: api :: tree :: cmdss => if cmdss.isEmpty then bad else handleCase api tree cmdss
   | _ => bad
 
